@@ -190,11 +190,8 @@ func C06(ctx *core.Ctx) {
 	}
 	var loops []*ssa.Function
 	for _, fn := range r.Fns {
-		for _, c := range ssax.Calls(fn) {
-			if isExec(c) && inCycle(c.Instr.(ssa.Instruction)) {
-				loops = append(loops, fn)
-				break
-			}
+		if cycleReaches(fn, isExec) {
+			loops = append(loops, fn)
 		}
 	}
 	if len(loops) == 0 {
